@@ -63,10 +63,24 @@ _MODELS = {}
 
 
 def model_for(prog):
+    """The class for a program.  Which of the equivalent ways of building it is used (typed / untyped template,
+    build_model / executing the definition text) is decided by the script text: it must not matter."""
     txt = g.render(prog)
     if txt not in _MODELS:
         try:
-            _MODELS[txt] = fsic.build_model(fsic.parse_model(txt))
+            how = sum(map(ord, txt)) % 4
+            syms = fsic.parse_model(txt)
+            if how == 0:
+                _MODELS[txt] = fsic.build_model(syms)
+            elif how == 1:
+                _MODELS[txt] = fsic.build_model(syms, with_type_hints=False)
+            else:
+                from fsic.core import BaseModel
+                from typing import Any, Dict, Hashable, List, Optional
+                ns = {'BaseModel': BaseModel, 'np': np, 'Any': Any, 'Dict': Dict, 'Hashable': Hashable,
+                      'List': List, 'Optional': Optional}
+                exec(fsic.build_model_definition(syms, with_type_hints=(how == 2)), ns)
+                _MODELS[txt] = ns['Model']
         except Exception:  # noqa: BLE001
             _MODELS[txt] = None
     return _MODELS[txt], txt
@@ -104,6 +118,11 @@ def one_call(prog, Model, n, t, o, rng, rep, lines, expect, txt):
     if rng.random() < 0.08:
         nm = rng.choice(m.names)
         m[nm][rng.randrange(n)] = rng.choice([np.nan, np.inf])
+    if o['offset'] and rng.random() < 0.3 and exp['endogenous']:
+        # a non-finite value in the period the offset copies from (rejected after the copy under errors='raise')
+        src = (t + n if t < 0 else t) + o['offset']
+        if 0 <= src < n:
+            m[rng.choice(exp['endogenous'])][src] = rng.choice([np.nan, np.inf, -np.inf])
     if rng.random() < 0.5:      # the period (and its neighbours) may carry the record of an earlier solve
         m.status[:] = [rng.choice('.FES-') for _ in range(n)]
         m.iterations[:] = [rng.choice([-1, 0, 1, 7, 73]) for _ in range(n)]
